@@ -51,6 +51,7 @@ type c11sys struct {
 	val  int
 	c    *Cache[c11key, int]
 	size int
+	lenAtEnd int
 }
 
 const (
@@ -139,6 +140,7 @@ func c11Scenario(name string, progs [][][]string, d int, prefill bool) vr.Scenar
 			})
 		}
 		wg.Wait()
+		s.lenAtEnd = s.c.Len()
 		s.c.Close()
 	}
 	check := func(x *vs.Exec) (string, *vs.Violation) {
@@ -205,6 +207,16 @@ func c11Scenario(name string, progs [][][]string, d int, prefill bool) vr.Scenar
 			}
 			return "", ""
 		}
+		// the harness cache holds one entry per shard; k0 and k1 live in shard 0, k2 in shard 1
+		capBound := func(before int) int {
+			sh := map[uint64]bool{}
+			for _, o := range s.ops {
+				if o.kind == "store" && o.begin < before {
+					sh[c11keys[o.key].sum%64] = true
+				}
+			}
+			return len(sh)
+		}
 		for _, o := range s.ops {
 			switch o.kind {
 			case "get":
@@ -219,11 +231,17 @@ func c11Scenario(name string, progs [][][]string, d int, prefill bool) vr.Scenar
 						return V("range/"+orc, why)
 					}
 				}
+				if len(o.rng) > capBound(o.end) {
+					return V("len/over-capacity", fmt.Sprintf("Range saw %d entries, capacity of the written shards is %d", len(o.rng), capBound(o.end)))
+				}
 			case "len":
-				if o.got > 1024 || o.got < 0 {
-					return V("len/over-capacity", fmt.Sprintf("Len() = %d with capacity %d (minimum 1024)", o.got, s.size))
+				if o.got > capBound(o.end) || o.got < 0 {
+					return V("len/over-capacity", fmt.Sprintf("Len() = %d although the shards that were ever written hold at most %d entries (one entry per shard)", o.got, capBound(o.end)))
 				}
 			}
+		}
+		if s.lenAtEnd > capBound(1<<30) {
+			return V("len/over-capacity", fmt.Sprintf("Len() = %d at the end, capacity of the written shards is %d", s.lenAtEnd, capBound(1<<30)))
 		}
 		return key, nil
 	}
@@ -240,6 +258,7 @@ func TestVerifC11(t *testing.T) {
 		c11Scenario("point2-point2-prefilled", []m{{P, P}, {P, P}}, 1, true),
 		c11Scenario("full1-point2-prefilled", []m{{F}, {P, P}}, 2, true),
 		c11Scenario("point1full1-point1", []m{{P, F}, {P}}, 2, false),
+		c11Scenario("point1full1-point1-prefilled", []m{{P, F}, {P}}, 2, true),
 		c11Scenario("full1-full1-prefilled", []m{{F}, {F}}, 1, true),
 	}
 	if e.Tier == "thorough" {
